@@ -135,7 +135,15 @@ class Comment(Statement):
         self.lines = lines
 
     def write(self, scope: VhdlScope):
-        return TextBlock([f"-- {line}" for line in self.lines])
+        # a line break inside a comment string starts a new comment line
+        # (the remaining text would otherwise be emitted as code)
+        return TextBlock(
+            [
+                f"-- {part}"
+                for line in self.lines
+                for part in (str(line).splitlines() or [""])
+            ]
+        )
 
 
 class Boolean(Expression):
